@@ -67,6 +67,10 @@ func StartKeygenCommon(taproot bool, group curve.Curve, participants []party.ID,
 			for _, k := range participants {
 				verificationSharesCopy[k] = group.NewPoint()
 			}
+		} else {
+			// the rounds add to this scalar in place: work on a copy, so that the caller's
+			// configuration keeps its old share (e.g. when the refresh fails for a peer)
+			privateShare = group.NewScalar().Set(privateShare)
 		}
 
 		return &round1{
